@@ -5,7 +5,8 @@ import ser
 ID = "C08"
 SOURCES = ["dagrt/language.py", "dagrt/utils.py", "dagrt/expression.py", "dagrt/exec_numpy.py"]
 RULE = ("random statements of every kind (plain / subscripted / looped assignments with variable bounds and nested loops, "
-        "multi-result and keyword calls, yields, fail, switch, raise, no-op) under random guards, executed on random exact-integer "
+        "multi-result and keyword calls, yields, fail, switch, raise with and without a message, no-op; on the real code only: bounds named "
+        "like the statement's own counter, numpy object arrays of expressions as value / argument / yielded state) under random guards, executed on random exact-integer "
         "stores by the REAL interpreter methods (evaluate_condition + exec_*) with a recording dict as context. Compared with the "
         "Lean model: declared read and write sets (exact), the set of names actually read / assigned (loop counters aside), the "
         "resulting values, status and yielded event. Oracle: every name read is in declared reads or writes, every name assigned "
@@ -24,10 +25,32 @@ def cases(rng, tier):
         cond = ["cb", True] if r < 0.4 else (["v", "fl"] if r < 0.5 else sc.g_bool(rng, 2, env))
         if kind[0] == "nop":
             cond = ["cb", True]
+        if kind[0] == "raise" and rng.random() < 0.5:
+            kind = kind + ["nomsg"]          # no message: the default of Raise(...) and CodeBuilder.raise_()
         yield {"op": "C08.stmt", "tag": kind[0] + ("-loop" if kind[0] == "assign" and kind[4] else "")
                + ("-sub" if kind[0] == "assign" and kind[2] is not None else ""),
                "spec": {"cond": cond, "kind": kind}, "store": sc.g_store(rng)}
     yield from outer_counter_cases(rng, 60 if tier == "quick" else 600)
+    yield from object_array_cases(rng, 90 if tier == "quick" else 900)
+
+
+def object_array_cases(rng, n):
+    """the value assigned, passed or yielded is a numpy OBJECT ARRAY whose entries are expressions (the interpreter
+    evaluates it entry by entry): its variables are read. Decided on the real code only (the model's expression
+    language has no array literals)."""
+    for _ in range(n):
+        env = sc.base_env()
+        items = [sc.g_int(rng, rng.choice([0, 1, 1, 2]), env) for _ in range(rng.randint(1, 3))]
+        arr = ["objarr", items]
+        shape = rng.randrange(3)
+        if shape == 0:
+            kind = ["assign", "w", None, arr, []]
+        elif shape == 1:
+            kind = ["call", ["t1"], "<builtin>len", [arr], []]
+        else:
+            kind = ["yield", arr, ["v", "<t>"], "final", "y"]
+        cond = ["cb", True] if rng.random() < 0.6 else sc.g_bool(rng, 1, env)
+        yield {"op": None, "tag": "object-array-" + kind[0], "spec": {"cond": cond, "kind": kind}, "store": sc.g_store(rng)}
 
 
 def outer_counter_cases(rng, n):
